@@ -156,6 +156,9 @@ func (c SeriesCheck) Check(ctx context.Context, entry discovery.Entry, entries [
 			continue
 		}
 
+		// Number of problems reported before we started checking this selector.
+		problemsBefore := len(problems)
+
 		done[selector.String()] = true
 
 		if isDisabled(entry.Rule, selector) {
@@ -412,7 +415,7 @@ func (c SeriesCheck) Check(ctx context.Context, entry discovery.Entry, entries [
 				slog.Debug("No historical series with label used for the query", slog.String("check", c.Reporter()), slog.String("selector", (&l).String()), slog.String("label", name))
 			}
 		}
-		if len(problems) > 0 {
+		if len(problems) > problemsBefore {
 			continue
 		}
 
@@ -625,7 +628,7 @@ func (c SeriesCheck) Check(ctx context.Context, entry discovery.Entry, entries [
 				)
 			}
 		}
-		if len(problems) > 0 {
+		if len(problems) > problemsBefore {
 			continue
 		}
 
